@@ -86,6 +86,38 @@ def second_client_check(ctx, rig, f, svc, classes):
         if [c["method"] for c in cb] != [path] or ca:
             ctx.violation("second-client-channel", f"{path} ({kind}): a call through a second client on its own channel reached its server "
                           f"{len(cb)} time(s) and the FIRST client's server {len(ca)} time(s)")
+    # the same over REST (two endpoints), for a method with an HTTP binding
+    if "rest" not in ctx.options.get("transport", ""):
+        return
+    m = next((x for x in svc["methods"] if not x.get("cs") and not x.get("ss") and x.get("http") and not x.get("lro")
+              and x["output"] != ".google.longrunning.Operation"), None)
+    if m is None:
+        return
+    from .c06 import set_string
+    from ..refmodels import transcoding as T
+    from google.protobuf import json_format
+    dyn = classes(ctx.descriptor(m["input"]))()
+    for seg in T.parse_uri(m["http"]["uri"])[0]:
+        if seg[0] == "var":
+            set_string(dyn, seg[1], "/".join("x1" if s_ in ("*", "**") else s_ for s_ in seg[2]))
+    req = to_python(ctx, m["input"], dyn)
+    body = json_format.MessageToJson(classes(ctx.descriptor(m["output"]))())
+    try:
+        first = rig.client(f, svc, "rest")
+        rig.http.respond = lambda rec: (200, body, {})
+        getattr(first, client_method_name(m["name"]))(request=req)
+        second, hb = rig.fresh_rest_client_b(f, svc)
+        hb.respond = lambda rec: (200, body, {})
+        rig.http.take(), hb.take()
+        getattr(second, client_method_name(m["name"]))(request=req)
+    except Exception as e:
+        ctx.violation("second-client-raised", f"{m['name']} (rest): {type(e).__name__}: {str(e)[:200]}")
+        return
+    ca, cb = rig.http.take(), hb.take()
+    ctx.count("second_client_calls")
+    if len(cb) != 1 or ca:
+        ctx.violation("second-client-channel", f"{m['name']} (rest): a call through a second client on its own endpoint reached its server "
+                      f"{len(cb)} time(s) and the FIRST client's server {len(ca)} time(s)")
 
 
 def exercise(ctx):
